@@ -126,7 +126,7 @@ def desc(e):
             return e["v"]
         return "%s{%s}" % (e["v"], ", ".join("%s: %s" % (n, desc(x)) for n, x in e["f"]))
     if k == "lit":
-        for key in ("s", "i", "b"):
+        for key in ("s", "i", "b", "c"):
             if key in e:
                 return repr(e[key])
         return "lit"
